@@ -47,6 +47,33 @@ let result_string = function
   | RBool true -> "true" | RBool false -> "false"
   | RRef (Some _) -> "bound" | RRef None -> "unbound" | RUnit -> "-"
 
+
+(* proxy chains  r[p1][p2]...[pn] : every level is the model's own step (get, or create-as-null when absent); the chain
+   itself is not a new operation of the model.  path element: `K key` or `I index` *)
+type pel = K of n list | I of int
+let path_string (p : pel list) =
+  String.concat "/" (List.map (function K k -> "k" ^ hex_of_bytes k | I i -> "i" ^ string_of_int i) p)
+let path_of_string (s : string) : pel list =
+  List.map (fun t -> if t.[0] = 'k' then K (bytes_of_hex (String.sub t 1 (String.length t - 1)))
+                     else I (int_of_string (String.sub t 1 (String.length t - 1)))) (String.split_on_char '/' s)
+let get_level w r = function
+  | K k -> (match step w (OGetMember (r, k)) with (_, RRef x) -> x | _ -> None)
+  | I i -> (match step w (OGetElem (r, nat_of_int i)) with (_, RRef x) -> x | _ -> None)
+(* getOrAddMember / getOrAddElement: the existing child, else create it holding null (no effect on a value of the wrong kind) *)
+let get_or_add_level w r pe =
+  match get_level w r pe with
+  | Some e -> (w, Some e)
+  | None ->
+      let (w', _) = (match pe with K k -> step w (OSetMember (r, k, SNull)) | I i -> step w (OSetElem (r, nat_of_int i, SNull))) in
+      (w', get_level w' r pe)
+let chain_get w r path : world * result =
+  (w, RRef (List.fold_left (fun cur pe -> match cur with None -> None | Some id -> get_level w id pe) (Some r) path))
+let chain_set w r path x : world * result =
+  let (w', cur) = List.fold_left (fun (w, cur) pe -> match cur with None -> (w, None) | Some id -> get_or_add_level w id pe) (w, Some r) path in
+  match cur with
+  | Some e -> step w' (OSet (e, x))
+  | None -> (w, RBool (set_on_unbound x))
+
 (* profile: 0 = general, 1 = no document-level ops (for fault enumeration), 2 = small *)
 let gen_history (seed : int) (nops : int) (ndocs : int) (profile : int) : string =
   state := seed * 7919 + 17;
@@ -75,7 +102,20 @@ let gen_history (seed : int) (nops : int) (ndocs : int) (profile : int) : string
     (* build the op *)
     let x = rand_scalar () in
     let nhd = new_handle () in
+    let custom : (world -> world * result) option ref = ref None in
+    let rand_path () = List.init (2 + rand 2) (fun _ -> if rand 3 = 0 then I (pick [0; 1; 2]) else K (pick keys)) in
     let (text, o, bind) : string * op * int option =
+      if profile <> 1 && rand 9 = 0 then begin
+        (* a chain of proxies, written or read in one expression *)
+        let path = rand_path () in
+        if rand 3 = 0 then begin
+          custom := Some (fun w -> chain_get w r path);
+          (Printf.sprintf "chainget %d %s %d" h (path_string path) nhd, OGetElem (r, O), Some nhd)
+        end else begin
+          custom := Some (fun w -> chain_set w r path x);
+          (Printf.sprintf "chainset %d %s %s" h (path_string path) (dump_scalar x), OSet (r, x), None)
+        end
+      end else
       if choice < 12 then (Printf.sprintf "set %d %s" h (dump_scalar x), OSet (r, x), None)
       else if choice < 16 then (Printf.sprintf "toarr %d" h, OToArr r, None)
       else if choice < 20 then (Printf.sprintf "toobj %d" h, OToObj r, None)
@@ -132,7 +172,7 @@ let gen_history (seed : int) (nops : int) (ndocs : int) (profile : int) : string
         match handles.(h') with
         | Some j -> if is_doc_op then not (List.mem (doc_of_handle h') target_docs) else not (related !w r j)
         | None -> false) lh)) in
-    let (w', res) = step !w o in
+    let (w', res) = (match !custom with Some f -> f !w | None -> step !w o) in
     w := w';
     List.iter (fun h' -> handles.(h') <- None) stale;
     (match bind, res with
@@ -197,8 +237,13 @@ let run_script (ndocs : int) (script : string) : string =
       | ["dswap"; d; s] -> (ODocSwap (nat d, nat s), None)
       | ["dshrink"; d] -> (ODocShrink (nat d), None)
       | ["deser"; h; t] -> (ODeser (hid h, bytes_of_hex t), None)
+      | ["chainget"; h; _; nh] -> (OGetElem (hid h, O), Some (int_of_string nh))
+      | ["chainset"; h; _; x] -> (OSet (hid h, scalar_of_dump x), None)
       | _ -> failwith ("bad step: " ^ st) in
-    let (w', res) = step !w o in
+    let (w', res) = (match toks with
+      | ["chainget"; h; p; _] -> chain_get !w (hid h) (path_of_string p)
+      | ["chainset"; h; p; x] -> chain_set !w (hid h) (path_of_string p) (scalar_of_dump x)
+      | _ -> step !w o) in
     w := w';
     (match bind, res with
      | Some hn, RRef (Some i) -> handles.(hn) <- Some i
